@@ -290,8 +290,8 @@ def r3(R):
 
 
 @rule('C11.R4', 'tpc_abort invalidates modified objects, disowns created and '
-      'added ones; every disown removes both owner and oid', props=['C05'],
-      min_instances=4)
+      'added ones, abort the connection\'s own created ones; every disown '
+      'removes both owner and oid', props=['C05', 'C12'], min_instances=4)
 def r4(R):
     conn = R.prog.cls(CONN)
     f = R.method(conn, 'tpc_abort')
@@ -329,6 +329,40 @@ def r4(R):
     for v in vs:
         R.violation((f.module.relpath, f.qualname, 'abort steps'), v.message,
                     g, v.path)
+    # abort(), the end of a transaction that never reached the two-phase
+    # commit: it disowns the objects of the connection's OWN table on every
+    # path (the savepoint store's table is another one: a savepoint that
+    # failed half way has recorded what it stored so far in the own table)
+    fa = R.method(conn, 'abort')
+    ga, ba, Fa = R.cfg(fa, conn, max_depth=0)
+    R.instance('Connection.abort')
+
+    def edge_a(node, st, lab, tgt):
+        if lab == 'e':
+            return st
+        for op in Fa.ops(node):
+            if op.kind == 'call' and path_is(
+                    op.path, ('self', '_invalidate_creating')) and \
+                    not op.ast.args and not op.ast.keywords:
+                st = True
+        return st
+
+    def at_a(node, st):
+        if node.id == ga.exit_return and not st:
+            return Violation(
+                'Connection.abort can complete without disowning the '
+                'objects of its own table of created objects (for instance '
+                'when a savepoint store exists): an object stored by a '
+                'savepoint that then failed stays owned and cached; a later '
+                'transaction that links it commits a dangling reference')
+        return st
+
+    vs, stats = explore(ga, False, at=at_a, edge=edge_a)
+    R.count(stats)
+    for v in vs[:1]:
+        R.violation((fa.module.relpath, fa.qualname,
+                     'own created objects not disowned'), v.message, ga,
+                    v.path)
     # pairing of the two deletions, everywhere in Connection
     n = 0
     for m in conn.methods.values():
@@ -592,7 +626,8 @@ def r8(R):
 # ------------------------------------------------------------------ C11.R9
 @rule('C11.R9', 'a record the import writes for a NEW object is written '
       'only after the object was recorded as created by this transaction '
-      '(abort disowns what is recorded, nothing else)', min_instances=1)
+      '(abort disowns what is recorded, nothing else)', props=['C12'],
+      min_instances=1)
 def r9(R):
     cls = R.prog.cls('ZODB.ExportImport.ExportImport')
     f = R.method(cls, '_importDuringCommit')
